@@ -242,3 +242,58 @@ ref_attrs = FunctionContract(
             ("if attr in attribute_stash:", "if attr in attribute_keep:")],
 )
 CONTRACTS.append(ref_attrs)
+
+
+# ------------------------------------------------------------------ do_mapping: atoms no mapping describes are reported
+UAtom, Elem = TKey('UAtom'), TKey('Elem')
+
+
+def setup_uncovered(cx):
+    from pyvc.builtins import list_append
+    NODES = cx.val('NODES', TSet(UAtom))                    # the atoms of the input molecule
+    covered = cx.val('COVERED', TSet(UAtom))                # the keys of mol_to_out: atoms some placement gives a weight
+    cx.spec_env.update(NODES=NODES, COVERED=covered)
+    from pyvc.values import COERCIONS
+    elem_of = cx.uf('elem_of', [UAtom], Elem)               # molecule.nodes[idx].get('element', '')
+    consts = {'H': z3.Const('elem!H', Elem.sort()), '': z3.Const('elem!none', Elem.sort())}
+    cx.assume(consts['H'] != consts[''])
+    COERCIONS[('Str', 'Elem')] = lambda e: consts[e.as_string()] if z3.is_string_value(e) and e.as_string() in consts else \
+        (_ for _ in ()).throw(EngineError('element %s' % e))
+    WARNED = cx.heap('WARNED', cx.box('WARNED', TSeq(TStr)))
+    DEBUGGED = cx.heap('DEBUGGED', cx.box('DEBUGGED', TSeq(TStr)))
+
+    def node(e, idx):
+        ie = to_z3(idx, UAtom)
+
+        def get(e2, k, d=None):
+            if k != 'element' or d != '':
+                raise EngineError('node.get(%r, %r)' % (k, d))
+            return SV(Elem, elem_of(ie))
+        return Obj('atomdict', get=Builtin(get, 'node.get'))
+    nodes = Obj('NodeView', __getitem__=Builtin(node, 'molecule.nodes[]'), keys=Builtin(lambda e: NODES, 'molecule.nodes.keys'))
+    molecule = Obj('Molecule', nodes=nodes)
+    mol_to_out = Obj('mol_to_out', keys=Builtin(lambda e: covered, 'mol_to_out.keys'))
+    log = Obj('LOGGER')
+    log.attrs['warning'] = Builtin(lambda e, *a, type=None, **k: list_append(e, WARNED, type), 'LOGGER.warning')
+    log.attrs['debug'] = Builtin(lambda e, *a, type=None, **k: list_append(e, DEBUGGED, type), 'LOGGER.debug')
+    cx.spec_env['LOGGER'] = log
+    cx.spec_env['format_atom_string'] = Builtin(lambda e, n, **k: 'atom', 'format_atom_string')
+    return dict(molecule=molecule, mol_to_out=mol_to_out)
+
+
+uncovered = FunctionContract(
+    F, 'do_mapping', 'C01', short='do_mapping[atoms no mapping describes]', setup=setup_uncovered, spec_env=dict(UAtom=UAtom), spec_defs={'is_h': "lambda a: elem_of(a) == 'H'"},
+    region=dict(start="uncovered_atoms = set(molecule.nodes.keys()) - set(mol_to_out.keys())", end="for interaction_type in modified_interactions:"),
+    ensures=[
+        # an atom of the input that no placement gives a weight is reported: one unmapped-atom warning exactly when such an atom
+        # is not a hydrogen, one debug message exactly when one is a hydrogen; nothing else is reported here
+        "(len(WARNED) == len(old(WARNED)) + 1) == exists(lambda a: a in NODES and not (a in COVERED) and not is_h(a), UAtom)",
+        "(len(DEBUGGED) == len(old(DEBUGGED)) + 1) == exists(lambda a: a in NODES and not (a in COVERED) and is_h(a), UAtom)",
+        "len(WARNED) == len(old(WARNED)) or (len(WARNED) == len(old(WARNED)) + 1 and WARNED[len(old(WARNED))] == 'unmapped-atom')",
+        "len(DEBUGGED) == len(old(DEBUGGED)) or (len(DEBUGGED) == len(old(DEBUGGED)) + 1 and DEBUGGED[len(old(DEBUGGED))] == 'unmapped-atom')",
+    ],
+    modifies=['WARNED', 'DEBUGGED'],
+    canary=[("other_uncovered = uncovered_atoms - uncovered_hydrogens", "other_uncovered = uncovered_hydrogens"),
+            ("uncovered_atoms = set(molecule.nodes.keys()) - set(mol_to_out.keys())", "uncovered_atoms = set(mol_to_out.keys()) - set(molecule.nodes.keys())")],
+)
+CONTRACTS.append(uncovered)
